@@ -109,7 +109,7 @@ func C01(env *Env) {
 			{rule: "GATE/qe-report-sig", name: "EnclaveReportToAbiBytes-ok", m: okRes("abi.EnclaveReportToAbiBytes", q.QeRep, "1"), expect: "abi.EnclaveReportToAbiBytes(QeReport) error == nil"},
 			{rule: "GATE/qe-report-sig", name: "SignatureToDER-ok", m: okRes("abi.SignatureToDER", q.QeSig, "1"), expect: "abi.SignatureToDER(QeReportSignature) error == nil"},
 			{rule: "GATE/report-data", name: "bytes.Equal",
-				m: pat.OneOf(pat.Call("bytes.Equal", hashBind, pat.Is(q.RD)), pat.Call("bytes.Equal", pat.Is(q.RD), hashBind)),
+				m:      pat.OneOf(pat.Call("bytes.Equal", hashBind, pat.Is(q.RD)), pat.Call("bytes.Equal", pat.Is(q.RD), hashBind)),
 				expect: "bytes.Equal(sha256(EcdsaAttestationKey || QeAuthData.Data)[:] || zeros(len(ReportData)-32), QeReport.ReportData)"},
 		}
 		env.requireGates(e, alts, part.name, specs)
